@@ -401,7 +401,12 @@ func ValidateCondition(column *ColumnSchema, function ConditionFunction, nativeV
 			NativeType(column).String(), nativeValue)
 	}
 
-	switch column.Type {
+	columnType := column.Type
+	if columnType == TypeEnum {
+		// an enum is an atom of its key type
+		columnType = column.TypeObj.Key.Type
+	}
+	switch columnType {
 	case TypeSet, TypeMap, TypeBoolean, TypeString, TypeUUID:
 		switch function {
 		case ConditionEqual, ConditionNotEqual, ConditionIncludes, ConditionExcludes:
